@@ -229,7 +229,10 @@ class FileProvider(ContentProvider):
                 raise BlacklistedSpec()
 
         resolved = os.path.realpath(self.path)
-        if not resolved.startswith(os.path.realpath(self.root)):
+        # compare whole path components: a sibling of the root whose name only
+        # starts with the root's name (/root2 vs /root) is outside of it
+        real_root = os.path.realpath(self.root)
+        if resolved != real_root and not resolved.startswith(os.path.join(real_root, "")):
             msg = "Relative path points outside the root: %s -> %s."
             raise Exception(msg % (self.path, resolved))
 
